@@ -23,3 +23,7 @@ func init() {
 	alias("C02", "R6", "C01", "R3", "a precommit for a block goes with locking on it")
 	alias("C02", "R7", "C01", "R4", "after precommitting (locking) a block the validator prevotes nothing else")
 }
+
+func init() {
+	alias("C15", "R2", "C04", "R6", "a synced write must have reached the disk")
+}
